@@ -26,6 +26,7 @@
 #include <gmssl/sha2.h>
 #include <gmssl/hmac.h>
 #include <gmssl/x509.h>
+#include <gmssl/x509_alg.h>
 #include <gmssl/cms.h>
 #include <gmssl/pkcs8.h>
 #include <gmssl/base64.h>
@@ -103,9 +104,21 @@ static void op_misc(int inst, out_t *o) { uint8_t b[2048], b2[2048]; size_t n = 
 	  uint8_t dg[64]; SHA1_CTX s1; sha1_init(&s1); sha1_update(&s1, MSG, 150); sha1_finish(&s1, dg); mix(o, dg, 20); SHA384_CTX s3; sha384_init(&s3); sha384_update(&s3, MSG, 190); sha384_finish(&s3, dg); mix(o, dg, 48); size_t pl = 0; o->rc += hkdf_extract(DIGEST_sm3(), k, 16, MSG, 40, dg, &pl); o->rc += hkdf_expand(DIGEST_sm3(), dg, pl, MSG, 5, 80, b); mix(o, b, 80); }
 	{ SM9_ENC_MASTER_KEY em; SM9_ENC_KEY ek, eka; o->rc += sm9_enc_master_key_generate(&em); o->rc += sm9_enc_master_key_extract_key(&em, "bob", 3, &ek); n = 0; o->rc += sm9_encrypt(&em, "bob", 3, MSG, 30 + inst, b, &n); mix(o, b, n); n2 = 0; o->rc += sm9_decrypt(&ek, "bob", 3, b, n, b2, &n2); mix(o, b2, n2);
 	  o->rc += sm9_exch_master_key_extract_key(&em, "alice", 5, &eka); SM9_EXCH_KEY kb; o->rc += sm9_exch_master_key_extract_key(&em, "bob", 3, &kb); SM9_Z256_POINT RA, RB; sm9_z256_t rA; uint8_t ska[32], skb[32]; o->rc += sm9_exch_step_1A(&em, "bob", 3, &RA, rA); o->rc += sm9_exch_step_1B(&em, "alice", 5, "bob", 3, &kb, &RA, &RB, skb, 32); o->rc += sm9_exch_step_2A(&em, "alice", 5, "bob", 3, &eka, rA, &RA, &RB, ska, 32); mix(o, ska, 32); mix(o, skb, 32); } }
+/* every `const char *name(int)` helper of the headers (generated table) over a range of identifiers, in an order that depends on the instance,
+   and the structure printers on own objects into a per-task memory stream: static result buffers / lazily built name tables live here */
+#include "c20_table.h"
+static void op_names(int inst, out_t *o) {
+	for (int f = 0; f < C20_NNAMES; f++) for (int v = 0; v < 340; v++) { int a = (v * 7 + inst * 13 + f) % 340 - 3; const char *sname = C20_NAMES[f].fn(a); if (sname) mix(o, sname, strlen(sname)); else o->rc++; }
+	for (int v = 0; v < 40; v++) { int a = 0x0300 + ((v * 3 + inst) % 8); const char *sname = tls_protocol_name(a); if (sname) mix(o, sname, strlen(sname)); a = 0xe000 + ((v * 5 + inst) % 0x20); sname = tls_cipher_suite_name(a); if (sname) mix(o, sname, strlen(sname)); a = 0x0700 + ((v + inst) % 16); sname = tls_signature_scheme_name(a); if (sname) mix(o, sname, strlen(sname)); }
+	char *t = NULL; size_t tl = 0; FILE *fp = open_memstream(&t, &tl); cert_spec lf; char cn[8]; snprintf(cn, sizeof cn, "p%d", inst); spec_leaf(&lf, cn, X509_KU_DIGITAL_SIGNATURE | X509_KU_KEY_ENCIPHERMENT); lf.eku = 4; uint8_t leaf[1024]; size_t ll = 0; o->rc += make_cert(&lf, &CK[inst % 4], &CK[5], "R", leaf, &ll); o->rc += x509_cert_print(fp, 0, 0, "certificate", leaf, ll);
+	{ uint8_t nm[128]; size_t nl = 0; make_name(nm, &nl, "crl"); uint8_t rev[200], *rp = rev; size_t rvl = 0; uint8_t sn[2] = { 1, (uint8_t)inst }; x509_revoked_cert_to_der(sn, 2, 1790000000 - 10, NULL, 0, &rp, &rvl); uint8_t b[1024], *p = b; size_t n = 0; o->rc += x509_crl_sign_to_der(X509_version_v2, OID_sm2sign_with_sm3, nm, nl, 1790000000 - 100, 1790000000 + 1000, rev, rvl, NULL, 0, &CK[5], SM2_DEFAULT_ID, 16, &p, &n); o->rc += x509_crl_print(fp, 0, 0, "crl", b, n);
+	  p = b; n = 0; o->rc += x509_req_sign_to_der(X509_version_v1, nm, nl, &CK[inst % 4], (const uint8_t *)"", 0, OID_sm2sign_with_sm3, &CK[inst % 4], SM2_DEFAULT_ID, 16, &p, &n); o->rc += x509_req_print(fp, 0, 0, "req", b, n); }
+	{ CMS_CERTS_AND_KEY sg = { leaf, ll, &CK[inst % 4] }; uint8_t *cms = (uint8_t *)malloc(4096); size_t n = 0; o->rc += cms_sign(cms, &n, &sg, 1, OID_cms_data, MSG, 30 + inst, NULL, 0); o->rc += cms_print(fp, 0, 0, "cms", cms, n); free(cms); }
+	{ uint8_t b[300], *p = b; size_t n = 0; sm2_private_key_info_to_der(&CK[inst % 4], &p, &n); o->rc += sm2_private_key_info_print(fp, 0, 0, "key", b, n); uint32_t nodes[8] = { 1, 2, 156, 10197, 1, 301, (uint32_t)inst + 1 }; o->rc += asn1_object_identifier_print(fp, 0, 0, "oid", NULL, nodes, 7); }
+	fclose(fp); mix(o, t, tl); free(t); }
 /* handshake: two tasks */
 #include "tlsh_min.h"
-static struct { const char *name; op_f f; int pair; } OPS[] = { { "hash", op_hash, 0 }, { "hmac-kdf", op_hmac, 0 }, { "sm4-modes", op_sm4, 0 }, { "zuc", op_zuc, 0 }, { "sm2-keygen-sign-verify", op_sm2sign, 0 }, { "sm2-encrypt-ecdh", op_sm2enc, 0 }, { "x509-sign-verify", op_x509, 0 }, { "cms-sign-encrypt", op_cms, 0 }, { "tls-record", op_record, 0 }, { "decode-malformed", op_decode_bad, 0 }, { "sm9-sign-verify", op_sm9, 0 }, { "pkcs8-encrypt", op_pkcs8, 0 }, { "misc-interfaces", op_misc, 0 },
+static struct { const char *name; op_f f; int pair; } OPS[] = { { "hash", op_hash, 0 }, { "hmac-kdf", op_hmac, 0 }, { "sm4-modes", op_sm4, 0 }, { "zuc", op_zuc, 0 }, { "sm2-keygen-sign-verify", op_sm2sign, 0 }, { "sm2-encrypt-ecdh", op_sm2enc, 0 }, { "x509-sign-verify", op_x509, 0 }, { "cms-sign-encrypt", op_cms, 0 }, { "tls-record", op_record, 0 }, { "decode-malformed", op_decode_bad, 0 }, { "sm9-sign-verify", op_sm9, 0 }, { "pkcs8-encrypt", op_pkcs8, 0 }, { "misc-interfaces", op_misc, 0 }, { "names-and-printers", op_names, 0 },
 	{ "handshake-tlcp", NULL, 1 }, { "handshake-tls12", NULL, 2 }, { "handshake-tls13", NULL, 3 } };
 #define NOPS ((int)(sizeof OPS / sizeof OPS[0]))
 
